@@ -74,6 +74,8 @@ pub struct GenState {
     pub step: u64,
     pub registered: Vec<String>,
     pub paused: bool,
+    /// allowances the generator has asked for so far (token, owner, spender)
+    pub allowances: Vec<(Tok, String, String)>,
 }
 
 fn users(cfg: &Cfg) -> Vec<String> {
@@ -270,34 +272,54 @@ pub fn next_op(r: &mut Rng, s: &Snap, cfg: &Cfg, p: &Profile, g: &mut GenState) 
             Op::Transfer { tok, from, to, amount: amount_upto(r, p, bal.max(1)) }
         }
         6 => {
-            let tok = if r.chance(1, 2) { Tok::B } else { Tok::St };
-            let (owner, bal) = holder_of(r, s, cfg, tok);
-            let spender = r.pick(&us).clone();
+            let mut tok = if r.chance(1, 2) { Tok::B } else { Tok::St };
+            let (mut owner, mut bal) = holder_of(r, s, cfg, tok);
+            let mut spender = r.pick(&us).clone();
             let expires = match r.below(6) {
                 0 => Exp::Never,
                 1 => Exp::AtHeight(s.height + r.range(0, 5)),
                 2 => Exp::AtTime(s.time + r.range(0, 200)),
                 _ => Exp::None,
             };
-            match r.below(5) {
+            let k2 = r.below(6);
+            if k2 <= 2 && !g.allowances.is_empty() && !r.chance(1, 6) {
+                // spend / shrink an allowance that was actually requested earlier
+                let a = r.pick(&g.allowances).clone();
+                tok = a.0;
+                owner = a.1;
+                spender = a.2;
+                bal = *s.tok(tok).balances.get(&owner).unwrap_or(&0);
+            }
+            match k2 {
                 0 => Op::DecreaseAllowance { tok, owner, spender, amount: amount_upto(r, p, bal.max(1)), expires },
-                1 => {
+                1 | 2 => {
                     // spend through an allowance: unbond / convert / transfer on behalf
                     let amount = amount_upto(r, p, bal.max(1));
-                    match r.below(3) {
+                    match r.below(4) {
                         0 => Op::Unbond { user: spender, tok, amount, owner: Some(owner) },
                         1 => Op::Convert { user: spender, tok, amount: amount.min(convert_room(s, tok).max(1)), owner: Some(owner) },
+                        2 => Op::BurnFrom { tok, spender, owner, amount: amount_upto(r, p, (bal / 4).max(1)) },
                         _ => {
                             let to = r.pick(&us).clone();
                             Op::TransferFrom { tok, spender, owner, to, amount }
                         }
                     }
                 }
-                _ => Op::IncreaseAllowance { tok, owner, spender, amount: amount_upto(r, p, bal.max(1)), expires },
+                _ => {
+                    if g.allowances.len() < 24 {
+                        g.allowances.push((tok, owner.clone(), spender.clone()));
+                    }
+                    Op::IncreaseAllowance { tok, owner, spender, amount: amount_upto(r, p, bal.max(1)), expires }
+                }
             }
         }
         7 => {
             let tok = if r.chance(1, 2) { Tok::B } else { Tok::St };
+            if !g.allowances.is_empty() && !r.chance(1, 5) {
+                let a = r.pick(&g.allowances).clone();
+                let bal = *s.tok(a.0).balances.get(&a.1).unwrap_or(&0);
+                return Op::BurnFrom { tok: a.0, spender: a.2, owner: a.1, amount: amount_upto(r, p, (bal / 4).max(1)) };
+            }
             let (owner, bal) = holder_of(r, s, cfg, tok);
             let spender = r.pick(&us).clone();
             Op::BurnFrom { tok, spender, owner, amount: amount_upto(r, p, (bal / 4).max(1)) }
